@@ -56,7 +56,8 @@ def misc_cases():
     """small families the other generators do not produce"""
     return st.fixed_dictionaries({
         "form": st.sampled_from(["exit-then-else", "exit-in-else",
-                                 "helper-expr", "exit-no-else"]),
+                                 "helper-expr", "exit-no-else",
+                                 "helper-in-lookup", "helper-in-lookup"]),
         "fmt": st.sampled_from("BHIQbhiq"),
         "c": st.integers(0, 100),
         "code": st.sampled_from([1, 2, 3]),
@@ -89,14 +90,37 @@ def run_misc(case):
                 e.vb = 1
                 e.exit(XDPExitCode(case["code"]))
             e.vb = 3
+        elif f == "helper-in-lookup":
+            # a helper call while the looked-up value pointer is live
+            e.table.key.k = e.va
+            with e.table.lookup() as (value, Else):
+                h = ktime(e) if case["helper"] == "ktime" else prandom(e)
+                if case["code"] == 1:
+                    value.v = h & 0xffff
+                elif case["code"] == 2:
+                    value.w = value.v + (h & 0xff)
+                else:
+                    e.vb = h & 0xff
+                    value.v = e.vb
+            with Else:
+                e.table.value.v = case["c"]
+                e.table.value.w = 0
+                e.table.update()
         else:
             h = ktime(e) if case["helper"] == "ktime" else prandom(e)
             e.vb = h + e.va
             e.va = e.vb * 3 + h
 
-    cls = type("M", (XDP,), {"license": "GPL", "minimumPacketSize": 20,
-                             "amap": amap, "va": amap.globalVar(case["fmt"]),
-                             "vb": amap.globalVar("Q"), "program": program})
+    from ebpfcat.ebpf import Member, Structure
+    from ebpfcat.hashmap import Dict
+    Key = type("Key", (Structure,), {"k": Member("I")})
+    Value = type("Value", (Structure,), {"v": Member("Q"), "w": Member("I")})
+    ns = {"license": "GPL", "minimumPacketSize": 20,
+          "amap": amap, "va": amap.globalVar(case["fmt"]),
+          "vb": amap.globalVar("Q"), "program": program}
+    if case["form"] == "helper-in-lookup":
+        ns["table"] = Dict(Key, Value, size=4)
+    cls = type("M", (XDP,), ns)
     with kernel.tracking():
         try:
             dsl.Loaded(cls())
